@@ -679,7 +679,7 @@ pub (crate) fn bid128_ext_fma(
     let y_sign: BID_UINT64;
     let mut z_sign: BID_UINT64;
     let mut p_sign: BID_UINT64;
-    let tmp_sign: BID_UINT64;
+    let mut tmp_sign: BID_UINT64;
     let mut x_exp: BID_UINT64 = 0;
     let mut y_exp: BID_UINT64 = 0;
     let mut z_exp: BID_UINT64 = 0;
@@ -716,13 +716,13 @@ pub (crate) fn bid128_ext_fma(
     let mut is_inexact_lt_midpoint0: bool;
     let mut is_inexact_gt_midpoint0: bool;
     let mut incr_exp: bool = false;
-    let lsb: bool;
+    let mut lsb: bool;
     let mut lt_half_ulp: bool = false;
     let mut eq_half_ulp: bool = false;
     let mut gt_half_ulp: bool = false;
     let mut is_tiny: bool = false;
     let mut R64: BID_UINT64;
-    let tmp64: BID_UINT64;
+    let mut tmp64: BID_UINT64;
     let mut P128: BID_UINT128 = Default::default();
     let mut R128: BID_UINT128 = Default::default();
     let mut P192: BID_UINT192 = Default::default();
@@ -1780,6 +1780,7 @@ pub (crate) fn bid128_ext_fma(
 
 // TODO: Try to ge around C goto
 // delta_ge_zero:
+    loop {
     if delta >= 0 {
         return if  p34 <= delta - 1 	                   // Case (1')
                || (p34 == delta && e3 + 6176 < p34 - q3) { // Case (1''A)
@@ -2565,6 +2566,7 @@ pub (crate) fn bid128_ext_fma(
 
 // TODO: Try to ge around C goto
 // case2_repeat:
+            'case2_repeat: loop {
             if scale == 0 { // this could happen e.g. if we return to case2_repeat
                 // or in Case (4)
                 res.w[1] = C3.w[1];
@@ -2865,7 +2867,7 @@ pub (crate) fn bid128_ext_fma(
                     incr_exp               = false;
 
 // TODO: Try to ge around C goto
-                    panic!("goto case2_repeat");
+                    continue 'case2_repeat;
                 }
                 // else this is the result rounded with unbounded exponent;
                 // because the result has opposite sign to that of C4 which was
@@ -3119,6 +3121,8 @@ pub (crate) fn bid128_ext_fma(
                 res.w[0] = 0x38c15b0a00000000u64;
                 e3      += 1;
             }
+            break;
+            } // end loop case2_repeat
             res.w[1] |= z_sign | (((e3 + 6176) as BID_UINT64) << 49);
             // check for overflow
             if rnd_mode == RoundingMode::NearestEven && e3 > EXP_MAX_UNBIASED {
@@ -3405,7 +3409,7 @@ pub (crate) fn bid128_ext_fma(
             }
 
 // TODO: Try to ge around C goto
-            panic!("goto delta_ge_zero;")
+            continue;
         } else if (p34 <= delta && delta < q4 && q4 < delta + q3)   // Case (11)
                || (delta < p34 && p34 < q4 && q4 < delta + q3) {    // Case (12)
 
@@ -3918,6 +3922,8 @@ pub (crate) fn bid128_ext_fma(
         }
 
     } // end if delta < 0
+    break;
+    } // end loop delta_ge_zero
 
     *ptr_is_midpoint_lt_even    = is_midpoint_lt_even;
     *ptr_is_midpoint_gt_even    = is_midpoint_gt_even;
